@@ -24,13 +24,15 @@ HF = [["1"], ["0"], ["2", "5"], ["-", "1"], ["+", "5"], ["b", "1"], ["1", "b"], 
       ["9", "9", "9", "9", "9", "9", "9", "9", "9"], ["-", "0"], ["+", "_", "1"], ["1", "_", "_", "0"], ["b"],
       ["u", "0"], ["-", "b", "1"], ["g", "1"], ["1", "g"]]
 PL = [[], ["a"], ["b", "a"], ["a", "b"], ["1"], ["a", "r", "a"], ["a", "b", "a"], ["u", "_"], ["a", "a", "a"],
+      ["a", "c"], ["a", "a"], ["1", "a"], ["a", "c", "a", "c"], ["c", "a", "1", "c"],
       ["-", "1"], ["1", "s", "2"][:1]]
 TR = [[], ["n"], ["r", "n"], ["b", "n"], ["r"], ["n", "n"], ["b", "b", "r", "n"], ["g", "n"], ["g"]]
 BLANKS = [" ", "\t", "\x0b", "\x0c", "\x85", "\xa0", " ", " ", " ",
           " ", " ", " ", "　"]
 GBLANKS = ["\x1c", "\x1d", "\x1e", "\x1f"]
 UDIG = ["٣", "３", "३", "\U0001d7d1", "๓"]
-OTHER = ["a", "\xe9", "\U0001f600", "\x00", ".", "x", "Z", "~", "漢", "e", "−", "'", "\"", "\\", "́",
+FORMATISH = ["%", "{", "}", "$", "#", "*", "?", "[", "(", "&", "|", "<", ">", "=", "`", "@", "!", "^", ",", ":", "/", "d", "s"]
+OTHER = FORMATISH + ["a", "\xe9", "\U0001f600", "\x00", ".", "x", "Z", "~", "漢", "e", "−", "'", "\"", "\\", "́",
          "﻿", "{"]
 IVALS = [-1, 0, 1, 255, 256, 1000, 2147483647, -2147483647, 17, 254]
 
@@ -39,7 +41,12 @@ class Conc:
     """One concretisation: symbol class -> one real character (so the inverse is a function)."""
 
     def __init__(self, rng):
-        self.m = {"b": rng.choice(BLANKS), "u": rng.choice(UDIG), "a": rng.choice(OTHER), "g": rng.choice(GBLANKS),
+        a = rng.choice(OTHER)
+        if rng.random() < 0.3:
+            a, c = "%", rng.choice(["d", "s", "(", "r", "x", "{"])
+        else:
+            c = rng.choice([x for x in OTHER if x != a])
+        self.m = {"b": rng.choice(BLANKS), "u": rng.choice(UDIG), "a": a, "c": c, "g": rng.choice(GBLANKS),
                   "n": "\n", "r": "\r", "s": ";", "-": "-", "+": "+", "_": "_"}
         for d in "0123456789":
             self.m[d] = d
@@ -80,7 +87,7 @@ def case_lines(tier, rng):
             for tr in (TR if tier == "thorough" else rng.sample(TR, 2)):
                 fields = [pl if k == nf else fi if k == i else fj if k == j else ["1"] for k in range(1, nf + 1)]
                 yield join(fields) + tr
-    alphabet = ["0", "1", "2", "5", "9", "u", "-", "+", "_", "s", "s", "s", "b", "n", "r", "a", "g"]
+    alphabet = ["0", "1", "2", "5", "9", "u", "-", "+", "_", "s", "s", "s", "b", "n", "r", "a", "c", "g"]
     for _ in range(20000 if tier == "quick" else 200000):
         n = rng.randint(0, 18)
         if rng.random() < 0.5:
@@ -133,7 +140,7 @@ def build_records(tier, rng):
                 objs[k], hv[k] = e, int(e)
             elif r < 0.25:
                 objs[k] = str(hv[k])          # int() accepts the decimal spelling too
-        pl = rng.choice(PL + [[rng.choice(["a", "b", "1", "u", "_", "-", "r"]) for _ in range(rng.randint(0, 6))]])
+        pl = rng.choice(PL + [[rng.choice(["a", "c", "b", "1", "u", "_", "-", "r"]) for _ in range(rng.randint(0, 6))]])
         ptxt = conc.text(pl)
         m = Message(node_id=objs[0], child_id=objs[1], type=objs[2], ack=objs[3], sub_type=objs[4], payload=ptxt)
         try:
